@@ -307,16 +307,25 @@ func (x *Exec) bumpFresh(st *State, v V) {
 // the named memories.
 func (x *Exec) pureResults(st *State, con *Contract, key string, args []V, sig *types.Signature) []V {
 	var terms, sorts []string
-	for _, a := range args {
+	var flat func(a V)
+	flat = func(a V) {
 		var ls []V
 		leaves(a, &ls)
 		for _, l := range ls {
 			if l.K == KFunc {
 				continue
 			}
+			if l.Box != nil {
+				// an interface holding a value: the function depends on the value, not on where it is boxed
+				flat(*l.Box)
+				continue
+			}
 			terms = append(terms, l.T)
 			sorts = append(sorts, sortOf(l))
 		}
+	}
+	for _, a := range args {
+		flat(a)
 	}
 	for _, sp := range con.MemDep {
 		if m := st.mem[sp]; m != nil {
@@ -330,7 +339,7 @@ func (x *Exec) pureResults(st *State, con *Contract, key string, args []V, sig *
 		k := 0
 		rv := build(rt, func(ls leafShape) V {
 			k++
-			name := fmt.Sprintf("uf_%s_r%d_%d", sanitize(key), i, k)
+			name := fmt.Sprintf("uf_%s_r%d_%d_a%d", sanitize(key), i, k, len(sorts))
 			var out V
 			switch ls.K {
 			case KBool:
@@ -602,4 +611,20 @@ func (x *Exec) usesLocals() bool {
 		}
 	}
 	return false
+}
+
+// namedType resolves pkg.Name (short package path) to the named type.
+func (x *Exec) namedType(name string) types.Type {
+	i := strings.LastIndex(name, ".")
+	if i < 0 || x.ld == nil {
+		return nil
+	}
+	tp, ok := x.ld.types[name[:i]]
+	if !ok {
+		return nil
+	}
+	if obj := tp.Scope().Lookup(name[i+1:]); obj != nil {
+		return obj.Type()
+	}
+	return nil
 }
